@@ -98,44 +98,60 @@ def _scope(ctx):
     return files
 
 
-PATH_PRESERVING = ("str", "os.fspath", "os.path.abspath", "os.path.expanduser", "os.path.realpath", "os.path.normpath", "bytes", "os.fsencode", "os.fsdecode")
+PATH_PRESERVING = ("str", "os.fspath", "os.path.abspath", "os.path.realpath", "os.path.normpath", "bytes", "os.fsencode", "os.fsdecode")
+# wrappers after which the string names another file than before (`~/x` is a relative path to os.path.exists / open, the expanded one is in the home
+# directory): a test of the one says nothing about the other.  The class of a path expression is the set of these it went through.
+PATH_CHANGING = {"os.path.expanduser": "expanduser", "os.path.expandvars": "expandvars"}
 
 
-def _same_path(e, al):
-    """Does expression e denote the same path as one of the aliases (value-preserving wrappers only)?"""
+def _path_class(e, al):
+    """The class (frozenset of file-changing wrappers applied) of expression e if it denotes the user's path - one of the aliases, possibly through
+    value-preserving wrappers; None if it is something else."""
     d = dotted(e)
     if d is not None:
-        return d in al
+        return al.get(d)
     if isinstance(e, ast.Call) and call_name(e) in PATH_PRESERVING and e.args:
-        return _same_path(e.args[0], al)
+        return _path_class(e.args[0], al)
+    if isinstance(e, ast.Call) and call_name(e) in PATH_CHANGING and e.args:
+        c = _path_class(e.args[0], al)
+        return None if c is None else c | {PATH_CHANGING[call_name(e)]}
     if isinstance(e, ast.Call) and isinstance(e.func, ast.Attribute) and e.func.attr in ("encode", "decode") and not e.args:
-        return _same_path(e.func.value, al)
-    return False
+        return _path_class(e.func.value, al)
+    return None
+
+
+def _same_path(e, al, cls=frozenset()):
+    """Does expression e denote the user's path, of the given class?"""
+    return _path_class(e, al) == cls
 
 
 def _path_aliases(fn):
-    """Names that hold exactly the user's path inside a constructor (str()/fspath() wrappers allowed;
-    lower(), basename(), formatting ... produce a *different* path and are not aliases)."""
-    al = set()
+    """{name: class} of the names that hold the user's path inside a constructor (str()/fspath() wrappers allowed; expanduser() gives a name of
+    another class; lower(), basename(), formatting ... produce a *different* path and are not aliases)."""
+    al = {}
     ps = params(fn)
     for p in ps:
         if p in ("filename", "file", "fname", "path", "filenames"):
-            al.add(p)
+            al[p] = frozenset()
     changed = True
     while changed:
         changed = False
         for n in walk_no_nested(fn):
             if isinstance(n, ast.Assign) and len(n.targets) == 1:
                 t = dotted(n.targets[0])
-                if t and t not in al and _same_path(n.value, al):
-                    al.add(t)
-                    changed = True
+                if t and t not in al:
+                    c = _path_class(n.value, al)
+                    if c is not None:
+                        al[t] = c
+                        changed = True
             # C string copy in the Cython constructors:  strcpy(self.filename, filename)
             if isinstance(n, ast.Call) and call_name(n) in ("strcpy", "strncpy") and len(n.args) >= 2:
                 t = dotted(n.args[0])
-                if t and t not in al and _same_path(n.args[1], al):
-                    al.add(t)
-                    changed = True
+                if t and t not in al:
+                    c = _path_class(n.args[1], al)
+                    if c is not None:
+                        al[t] = c
+                        changed = True
     return al
 
 
@@ -164,13 +180,14 @@ def _mode_value(e):
     return None
 
 
-def make_atom_of(aliases):
+def make_atom_of(aliases, cls=frozenset()):
+    """atoms of the worlds; `exists` is a test of the user's path of class `cls` (the class of the path the destructive operation is given)"""
     def atom_of(e):
         if isinstance(e, ast.Name) and e.id == "force_overwrite":
             return "force"
         if isinstance(e, ast.Call):
             d = call_name(e)
-            if d in EXISTS_FUNCS and e.args and _same_path(e.args[0], aliases):
+            if d in EXISTS_FUNCS and e.args and _same_path(e.args[0], aliases, cls):
                 return "exists"
         v = _mode_value(e)
         if v is not None:
@@ -333,9 +350,14 @@ def check(ctx):
                              "destructive operation in a function that has no force_overwrite parameter and is not a lazily-opening method")
             continue
         cfg = CFG(fn)
-        aliases = _path_aliases(fn) or {"filename"}
-        W = cfg.worlds_at(make_atom_of(aliases), transfer=_transfer_factory(cfg))
+        aliases = _path_aliases(fn) or {"filename": frozenset()}
+        W_of = {}
         for (n, c) in sites:
+            # the guard must be a test of the very path this operation is given: exists(filename) says nothing about open(expanduser(filename))
+            pcls = (_path_class(c[1], aliases) if c[1] is not None else None) or frozenset()
+            if pcls not in W_of:
+                W_of[pcls] = cfg.worlds_at(make_atom_of(aliases, pcls), transfer=_transfer_factory(cfg))
+            W = W_of[pcls]
             node = cfg.node_containing(n)
             if node is None:
                 ctx.undecided("C20-R1", n, rel, q, call_name(n), "call site not located in the CFG")
@@ -364,8 +386,9 @@ def check(ctx):
             bad = [w for w in wr if not world_guarded(w)]
             if bad:
                 ctx.violated("C20-R1", n, rel, q, desc,
-                             "reached on a path where neither 'path does not exist' nor 'force_overwrite' is established: world %s"
-                             % _fmt_world(bad[0]))
+                             "reached on a path where neither 'path does not exist' nor 'force_overwrite' is established%s: world %s"
+                             % ((" for the path it is given (`%s` went through %s; an existence test of the path before that is a test of another file)"
+                                 % (src(c[1]), "/".join(sorted(pcls)))) if pcls else "", _fmt_world(bad[0])))
             else:
                 ctx.holds("C20-R1", n, rel, q, desc,
                           "all %d worlds reaching the site have exists=False or force=True" % len(wr))
@@ -379,14 +402,15 @@ def check(ctx):
             continue
         # (a) the constructor establishes the guard on every normal exit of the write branch
         cfg = CFG(ctor.fn)
-        aliases = _path_aliases(ctor.fn) or {"filename"}
-        W = cfg.worlds_at(make_atom_of(aliases), transfer=_transfer_factory(cfg))
+        aliases = _path_aliases(ctor.fn) or {"filename": frozenset()}
+        used_cls = {aliases.get(x) for x in names_of(c[1]) if x.startswith("self.") and x in aliases} or {frozenset()}
+        W = cfg.worlds_at(make_atom_of(aliases, sorted(used_cls, key=sorted)[-1]), transfer=_transfer_factory(cfg))
         exitw = [dict(w) for w in W[cfg.exit] if _feasible(dict(w))]
         wr = [w for w in exitw if world_mode_is_write(w, ast.Name("mode"))]
         bad = [w for w in wr if not world_guarded(w)]
         # (b) the path attribute used is assigned from the filename parameter in the constructor
         used = {x for x in names_of(c[1]) if x.startswith("self.")}
-        ok_attr = used <= aliases
+        ok_attr = used <= set(aliases)
         # (c) the method is private to the object: every call is self.<m>() from the same class
         mname = fi.qual.split(".")[-1]
         foreign = []
@@ -408,7 +432,7 @@ def check(ctx):
             ctx.undecided("C20-R1", n, fi.rel, fi.qual, desc, "constructor has no write-mode exit")
         elif not ok_attr:
             ctx.violated("C20-R1", n, fi.rel, fi.qual, desc,
-                         "lazy open uses %s which is not assigned from the constructor's filename" % sorted(used - aliases))
+                         "lazy open uses %s which is not assigned from the constructor's filename" % sorted(used - set(aliases)))
         elif foreign or not mname.startswith("_"):
             ctx.violated("C20-R1", n, fi.rel, fi.qual, desc,
                          "lazily opening method is callable from outside the guarded object: %s" % foreign)
@@ -539,7 +563,7 @@ def check(ctx):
         if mode_const is not None and "mode" in fi.params:
             # context: the caller passes a constant mode -> only sites feasible under mode == <const>
             cfg = CFG(fi.fn)
-            W = cfg.worlds_at(make_atom_of(_path_aliases(fi.fn) or {"filename"}), init={("mode", mode_const): True},
+            W = cfg.worlds_at(make_atom_of(_path_aliases(fi.fn) or {"filename": frozenset()}), init={("mode", mode_const): True},
                               transfer=_transfer_factory(cfg))
             feasible_nodes = (cfg, {nd for nd in cfg.nodes() if any(_feasible(dict(w)) for w in W[nd])})
         for n in walk_no_nested(fi.fn):
